@@ -42,6 +42,21 @@ package cache
 //@   ensures calls(timeNow) == 1 && calls(mapSet) == ite(ret(timeNow, 0).ns > expirationTime.ns, 0, 1)
 //@   ensures calls(mapSet) == 1 ==> arg(mapSet, 0, 0) == c.m && fresh(arg(mapSet, 0, 2)) && atcall(mapSet, 0, arg(mapSet, 0, 2).v == v && arg(mapSet, 0, 2).expirationTime == expirationTime)
 
+// Range (C19): every element the map shows to the adapter is passed on to f with its own value and
+// expiry; f's error is returned unchanged and the element is neither replaced nor deleted.
+//@ func (c *Cache) Range$1 [C19]
+//@   requires v != nil
+//@   modifies *
+//@   ensures calls(f) == 1 && arg(f, 0, 0) == key && arg(f, 0, 1) == old(v.v) && arg(f, 0, 2) == old(v.expirationTime)
+//@   ensures result_3 == ret(f, 0) && !result_1 && !result_2
+//@ func paramfn:Range$1.f
+//@   modifies *
+//@ func (c *Cache) Range [C19]
+//@   log cacheRange
+//@   requires c != nil
+//@   modifies *
+//@   ensures calls(mapRangeDo) == 1 && arg(mapRangeDo, 0, 0) == c.m && result == ret(mapRangeDo, 0)
+
 // the cleaner goroutine touches the cache only through the (locked) map operations
 //@ func (c *Cache) gcLoop
 //@   nobody
